@@ -410,3 +410,15 @@ def r14_state(ctx):
 
 
 RULES.append(('R14.0', r14_state))
+
+
+def r14_refusals(ctx):
+    """Text that is not a valid message is refused with ValueError - also where the refusal comes out of a number conversion:
+    a fraction, an exponent, an infinity or a not-a-number for an integer attribute (int(float('inf')) raises OverflowError,
+    which parse_string_stream does not catch: the stream would stop at that line instead of reporting it).  Shared with
+    C03 R03.5, restricted to from_str."""
+    from . import c03
+    ctx.borrow(lambda c: c03.r03_5(c, parts=('str',)), 'R14.7')
+
+
+RULES.append(('R14.7', r14_refusals))
